@@ -20,6 +20,8 @@ type VerifCacheInfo struct {
 	// slot, 48 B per map entry, 4 B per NFA state id, 1 B per accel byte),
 	// independently of whatever MemoryUsage() itself maintains.
 	Recounted int
+	// AccelOverDead: see VerifAccelOverDead.
+	AccelOverDead int
 }
 
 // VerifInfo returns the cache's current bookkeeping.
@@ -31,15 +33,16 @@ func (c *DFACache) VerifInfo() VerifCacheInfo {
 		}
 	}
 	return VerifCacheInfo{
-		Recounted:    recount,
-		States:       len(c.states),
-		MemoryUsage:  c.MemoryUsage(),
-		Capacity:     c.capacityBytes,
-		ClearCount:   c.clearCount,
-		FlatTransLen: len(c.flatTrans),
-		FlatTransCap: cap(c.flatTrans),
-		StateListCap: cap(c.stateList),
-		Stride:       c.stride,
+		Recounted:     recount,
+		AccelOverDead: c.VerifAccelOverDead(),
+		States:        len(c.states),
+		MemoryUsage:   c.MemoryUsage(),
+		Capacity:      c.capacityBytes,
+		ClearCount:    c.clearCount,
+		FlatTransLen:  len(c.flatTrans),
+		FlatTransCap:  cap(c.flatTrans),
+		StateListCap:  cap(c.stateList),
+		Stride:        c.stride,
 	}
 }
 
